@@ -828,9 +828,15 @@ func writeEvidence(spec *Spec, tier string, seed int64, P *sym.Program, results 
 			"explanation":                   "bounded symbolic execution of the SSA of the listed functions (rebuilt from /repo on this run); every branch on a symbolic value is decided by the SMT solver, every verifAssert is discharged as unsat(pc and not cond); states = solver-decided decision points + paths, transitions = SSA instructions executed",
 		},
 	}
-	os.MkdirAll(filepath.Join(verifDir, "evidence"), 0o755)
+	// evidence/ holds results against /repo only; a run against another tree (VERIF_REPO, mutant
+	// experiments) writes next to it
+	evDir := filepath.Join(verifDir, "evidence")
+	if os.Getenv("VERIF_REPO") != "" && repoDir != "/repo" {
+		evDir = filepath.Join(verifDir, "replays", "evidence-other-tree")
+	}
+	os.MkdirAll(evDir, 0o755)
 	b, _ := json.MarshalIndent(ev, "", " ")
-	os.WriteFile(filepath.Join(verifDir, "evidence", spec.Property+".json"), b, 0o644)
+	os.WriteFile(filepath.Join(evDir, spec.Property+".json"), b, 0o644)
 }
 
 func round(f float64) float64 { return float64(int(f*100)) / 100 }
